@@ -178,4 +178,5 @@ pub fn run(ctx: &mut Ctx) {
     }
     crate::spaces::render_probes(ctx, &["!", "!!"]);
     crate::spaces::type_grid_probes(ctx, &["!", "!!", "if", "and", "or", "filter", "all", "some", "none"]);
+    crate::spaces::depth_probes(ctx);
 }
